@@ -150,6 +150,12 @@ func init() {
 			} else {
 				r.OK(fk, "updated asset persisted", "every success path after the transfer passes SetAsset(updated asset)", r.P(send))
 			}
+			// the converse: the staked total is only increased on paths that took the coins into custody
+			if trail := fa.MustPassThrough(nil, stores[0], []ssa.Instruction{send}); trail != nil {
+				r.Bad(fk, "total increased only after the custody transfer", "the staked total can be increased on a path that did not move the delegator's coins into the custody account: the ledger records stake that custody does not hold, and the payout of some later undelegation runs out of funds", trail, r.P(stores[0]))
+			} else {
+				r.OK(fk, "total increased only after the custody transfer", "every path to the TotalTokens update passes SendCoinsFromAccountToModule", r.P(send))
+			}
 		}})
 
 	register(&Rule{ID: "C01.pair.undelegate", Props: []string{"C01", "C02", "C17"}, Floor: 7,
@@ -436,6 +442,13 @@ func init() {
 			}
 			// accumulate dominated by the store and vice versa within the iteration
 			r.Check(fa.Dominates(st, addCall), fk, "deduction recorded before accumulation", "the total is reduced on every path that accumulates the coin", "a coin can be accumulated for transfer on a path that does not reduce the staked total", r.P(addCall))
+			// ... and the converse: every success path that reduces the total accumulates the coin (a deduction that is
+			// persisted but not accumulated stays in custody with nobody owning it: custody drifts above what is owed)
+			if trail := fa.MustFollow(st, []ssa.Instruction{addCall}); trail != nil {
+				r.Bad(fk, "every deduction is accumulated", "a success path reduces an asset's staked total without adding the deducted coin to what is sent to the fee collector: the coins stay in the custody account although no delegator owns them any more", trail, r.P(st))
+			} else {
+				r.OK(fk, "every deduction is accumulated", "every success path from the reduction of the total passes the Coins.Add into the accumulator", r.P(addCall))
+			}
 			// every success exit reachable from the accumulation passes the send, unless guarded by emptiness of the accumulator
 			exempt := func(g Guard) bool {
 				if g.Pos && g.Cond.IsCall("sdk.Coins.Empty", "sdk.Coins.IsZero") && g.Cond.Args[0].Eq(acc) {
